@@ -17,7 +17,7 @@
       tags  |-> sorted sequence of scenario features (fixed by the generated strings): body_at body_bs body_ctl
                 body_hy body_pct body_trail_nl get_with_body hdr_at hdr_empty_value url_glob]
      [k |-> "refused", fmt, exc]      the exporter raised (e.g. CommandError for a body that is not valid text)
-     [k |-> "raw", m, t, v, b |-> <<want, got>>, h_w, h_g |-> header lists in wire order]   raw export parsed back by the
+     [k |-> "raw", parsed |-> BOOLEAN, m, t, v, b |-> <<want, got>>, h_w, h_g |-> header lists in wire order]   raw export parsed back by the
                                       reference HTTP/1 parser (method, target, version, headers, body)
    "got" is what curl would do with the argv according to its manual: -X, -H (a value that is empty after the colon
    removes the header, a leading @ reads a file), -d (a leading @ reads a file; implies POST), URL globbing of
@@ -56,7 +56,8 @@ RunClause(ev) ==
   ELSE <<>>
 
 RawClause(ev) ==
-  IF Differs(ev.m) THEN <<"C48.raw_differs", "method">>
+  IF ~ev.parsed THEN <<"C48.raw_differs", "unparsable">>
+  ELSE IF Differs(ev.m) THEN <<"C48.raw_differs", "method">>
   ELSE IF Differs(ev.t) THEN <<"C48.raw_differs", "target">>
   ELSE IF Differs(ev.v) THEN <<"C48.raw_differs", "version">>
   ELSE IF ev.h_w # ev.h_g THEN <<"C48.raw_differs", "headers">>
